@@ -152,7 +152,7 @@ class Engine:
         s.undef_strict = True
         s.on_instr = None
         s.known_filter = None; s.known_hits = {}
-        s.fresh_only = False; s.inc_timeout_ms = 3000; s.alt_solver = None; s.alt_first = False; s.alt_trust_sat = False; s.concrete_inputs = None; s.model_prefixes = []; s.any_undef = False
+        s.fresh_only = False; s.inc_timeout_ms = 3000; s.alt_solver = None; s.last_resort_ms = 60000; s.alt_first = False; s.alt_trust_sat = False; s.concrete_inputs = None; s.model_prefixes = []; s.any_undef = False
         from . import models_rt
         models_rt.install(s)
 
@@ -211,6 +211,15 @@ class Engine:
                     for bvvar, val in info.items(): g.add(bvvar == val)
                     g.check(); m = g.model(); r = z3.sat
                 else: why = 'native: %s; alternative encoding: %s %s' % (why, v, str(info)[:300])
+        if r == z3.unknown and s.last_resort_ms and 'timeout' in why or (r == z3.unknown and s.last_resort_ms and 'canceled' in why):
+            # last resort before giving up: the native theory once more with a long budget (a short budget that is enough on an idle machine
+            # is not when 16 jobs share it; an undecided obligation costs the whole run)
+            f = z3.Solver(); f.set('timeout', s.last_resort_ms)
+            for c in st.pc: f.add(c)
+            if cond is not None: f.add(cond)
+            r = f.check(); s.stats['last_resort'] = s.stats.get('last_resort', 0) + 1
+            m = f.model() if r == z3.sat else None
+            if r == z3.unknown: why += '; last resort (%d ms): %s' % (s.last_resort_ms, f.reason_unknown())
         s.stats['solver_s'] += time.time() - t; s.stats['queries'] += 1; s.stats[str(r)] += 1
         if r == z3.unknown: raise Inconclusive('unknown', 'solver returned unknown (%s)' % why)
         return m
